@@ -180,6 +180,13 @@ func TestC06(t *testing.T) {
 	for _, sc := range serverSpecials() {
 		run("c06-server", sc)
 	}
+	for _, sc := range append(c06MetadataClasses(), c06UnaryDeadline()...) {
+		if sc.Mode == "server" {
+			run("c06-server", sc)
+		} else {
+			run("c06-e2e", sc)
+		}
+	}
 	for _, sc := range c06UnknownMethod() {
 		if sc.Mode == "server" {
 			run("c06-server", sc)
